@@ -157,25 +157,34 @@ func verifK_NoFCReceiver() {
 	rcv := newReceiverWithoutFlowControl[vitem](ctx)
 	nacc := verifParam("accepts")
 	var got []int
+	accDone, closeDone := false, false
+	// the consumer either reads until the end, or (a handler that has stopped reading) not at all
+	reads := verifChoice("consumerReads", 2) == 1
 	verifGo("acceptor", func() {
 		for i := 0; i < nacc; i++ {
 			_ = rcv.accept(vitem{1, i + 1})
 		}
+		accDone = true
 	})
-	verifGo("consumer", func() {
-		for i := 0; i < nacc+1; i++ {
-			it, ok := rcv.dequeue()
-			if !ok {
-				return
+	if reads {
+		verifGo("consumer", func() {
+			for i := 0; i < nacc+1; i++ {
+				it, ok := rcv.dequeue()
+				if !ok {
+					return
+				}
+				got = append(got, it.id)
 			}
-			got = append(got, it.id)
-		}
-	})
+		})
+	}
 	verifGo("closer", func() {
 		rcv.close()
 		rcv.cancel()
+		closeDone = true
 	})
 	verifDrain()
+	// tearing the stream down releases an accept that is parked on the full queue (and never deadlocks with it)
+	verifAssert(accDone && closeDone, "C04+C15.k-nofc-teardown-releases-a-blocked-accept")
 	// (no send on a closed channel, no double close: panic obligations; nobody left hanging: deadlock obligation)
 	for i, id := range got {
 		verifAssert(id == i+1, "C01+C11.k-nofc-fifo-prefix")
